@@ -80,7 +80,7 @@ MANIFEST = {
     }
 }
 PROPS = ["Nstd.Args.Props", "Nstd.Args.PropsWait", "Nstd.Args.PropsRun", "Nstd.Args.PropsRead", "Nstd.Args.PropsFds",
-         "Nstd.Args.PropsCode"]
+         "Nstd.Args.PropsCode", "Nstd.Args.PropsProc"]
 LEAN_TARGETS = PROPS + ["drv_args"]
 DRIVER = "drv_args"
 SOURCES = ["args.cpp", C.REPO / "src/String.cpp", C.REPO / "src/Memory.cpp", C.REPO / "src/Debug.cpp",
@@ -91,7 +91,8 @@ CHILD = b"CHILD"
 
 def setup():
     """regenerate lean/Nstd/Generated/ArgsCode.lean (translation of Arguments::nextChar / read / constructor and
-    splitCommandLine) from the current sources before the Lean targets are built"""
+    splitCommandLine) and ArgsProc.lean (Process object: constructor, destructor, isRunning, kill, join, close) from the
+    current sources before the Lean targets are built"""
     ok, msg = gen_args.run()
     if not ok:
         print("args translate:", msg)
